@@ -21,8 +21,8 @@ pub fn prop() -> Prop {
         ],
         subs: vec![
             Sub::enumerate("triangles_grid", triangles_grid),
-            Sub::tape("triangles_random", 16, 40_000, 1_500_000, triangles_random),
-            Sub::tape("polylines", 40, 30_000, 1_000_000, polylines),
+            Sub::tape("triangles_random", 16, 150_000, 2_250_000, triangles_random),
+            Sub::tape("polylines", 40, 200_000, 3_000_000, polylines),
         ],
     }
 }
